@@ -56,7 +56,34 @@ func credVariants() []credVariant {
 		{"two-fields-wrong-first", []httpwire.Field{{Name: "Proxy-Authorization", Value: "Basic " + b64("a:b")}, {Name: "Proxy-Authorization", Value: "Basic " + b64(user+":"+pass)}}, false},
 		{"in-authorization-instead", []httpwire.Field{{Name: "Authorization", Value: "Basic " + b64(user+":"+pass)}}, false},
 		{"mixed-case-name", []httpwire.Field{{Name: "pRoXy-aUtHoRiZaTiOn", Value: "Basic " + b64(user+":"+pass)}}, true},
+		// the base64 text itself altered in letter case only: it decodes to different credentials
+		{"base64-first-letter-case-flipped", pa("Basic " + flipCase(b64(user+":"+pass), 0)), false},
+		{"base64-last-letter-case-flipped", pa("Basic " + flipCase(b64(user+":"+pass), -1)), false},
+		{"base64-lower-cased", pa("Basic " + strings.ToLower(b64(user+":"+pass))), false},
+		{"base64-upper-cased", pa("Basic " + strings.ToUpper(b64(user+":"+pass))), false},
+		{"right-then-garbage", pa("Basic " + b64(user+":"+pass) + "AAAA"), false},
+		{"colon-in-user", pa("Basic " + b64(user+":"+pass+":"+pass)), false},
 	}
+}
+
+// flipCase flips the case of the i-th letter of s (i < 0: the last letter).
+func flipCase(s string, i int) string {
+	b := []byte(s)
+	var idx []int
+	for k, c := range b {
+		if (c >= 'a' && c <= 'z') || (c >= 'A' && c <= 'Z') {
+			idx = append(idx, k)
+		}
+	}
+	if len(idx) == 0 {
+		return s
+	}
+	k := idx[0]
+	if i < 0 {
+		k = idx[len(idx)-1]
+	}
+	b[k] ^= 0x20
+	return string(b)
 }
 
 type hostVariant struct {
@@ -452,7 +479,7 @@ func finish(x *explore.X, w *world.World, cl *world.Peer, hops ...*world.Hop) {
 
 func TestC04(t *testing.T) {
 	s := explore.NewSuite(t, "C04", "exploration",
-		"controls {basic auth, deny-domains (include+exclude list), localhost denial, allowed time frame with the virtual clock inside/outside} x request kind(6: absolute-form, origin-form, CONNECT, inside a MITM'd tunnel, HTTP/1.0, POST with unusual header layout) x credential variant(16) x host spelling(17-19, incl. hosts-file aliases read by the oracle's own parser) x position on the connection(3); deviation-bounded exploration (D=2 quick, 3 thorough) plus the full products controls x kind x credentials and controls x kind x host; each execution compares the proxy's answer with the reference decision (first failing control in documented order) and proves from the in-memory network's dial log and byte counters that a refused request caused no connection and no byte upstream")
+		"controls {basic auth, deny-domains (include+exclude list), localhost denial, allowed time frame with the virtual clock inside/outside} x request kind(6: absolute-form, origin-form, CONNECT, inside a MITM'd tunnel, HTTP/1.0, POST with unusual header layout) x credential variant(22, incl. the right base64 text with letter case altered) x host spelling(17-19, incl. hosts-file aliases read by the oracle's own parser) x position on the connection(3); deviation-bounded exploration (D=2 quick, 3 thorough) plus the full products controls x kind x credentials and controls x kind x host; each execution compares the proxy's answer with the reference decision (first failing control in documented order) and proves from the in-memory network's dial log and byte counters that a refused request caused no connection and no byte upstream")
 	s.Assume = []string{"simnet owns every dial of the proxy (listen/dial seams)", "deny-domains semantics on host case are those of the configured regular expressions (C17)", "TZ=UTC"}
 	s.Add(explore.Scenario{Name: "bounded", Remote: true, MaxDev: map[string]int{"quick": 2, "thorough": 3},
 		Run: func(x *explore.X) { world.Run(t, x, func() { scenario(x, 0) }) }})
